@@ -33,6 +33,9 @@ type Prog struct {
 	// fileOf maps a token.File to its package and syntax.
 	allSyntax bool
 	ssa       *ssaState
+	// lineMap: for files that were printed again by the normaliser, the original line of each new line
+	lineMap   map[*token.File][]int
+	normNotes []string
 }
 
 // Load loads ./... of dir. With deps=true the whole dependency closure is loaded from source
@@ -67,6 +70,20 @@ func Load(dir string, deps bool, extraEnv ...string) (*Prog, error) {
 	}
 	sort.Slice(pkgs, func(i, j int) bool { return pkgs[i].PkgPath < pkgs[j].PkgPath })
 	p.All = pkgs
+	if !disableNormalise {
+		notes, nerr := safeNormalise(p)
+		if nerr != nil {
+			// analyse the program as written
+			disableNormalise = true
+			p2, err := Load(dir, deps, extraEnv...)
+			disableNormalise = false
+			if p2 != nil {
+				p2.normNotes = []string{"normalisation abandoned: " + nerr.Error()}
+			}
+			return p2, err
+		}
+		p.normNotes = notes
+	}
 	for _, rel := range sdkPkgs {
 		pk := p.byPath[modPath+"/"+rel]
 		if pk == nil {
@@ -306,12 +323,28 @@ func (p *Prog) StdFunc(path, recv, name string) *types.Func {
 	return nil
 }
 
+func safeNormalise(p *Prog) (notes []string, err error) {
+	defer func() {
+		if r := recover(); r != nil {
+			if nf, ok := r.(normaliseFailure); ok {
+				err = nf.err
+				return
+			}
+			err = fmt.Errorf("panic in the normaliser: %v", r)
+		}
+	}()
+	return p.Normalise(), nil
+}
+
 // Rel returns a path relative to the repository root for a position.
 func (p *Prog) Rel(pos token.Pos) string {
 	if !pos.IsValid() {
 		return "?"
 	}
 	ps := p.Fset.Position(pos)
+	if m := p.lineMap[p.Fset.File(pos)]; m != nil && ps.Line < len(m) && m[ps.Line] > 0 {
+		ps.Line = m[ps.Line]
+	}
 	r, err := filepath.Rel(p.Dir, ps.Filename)
 	if err != nil {
 		r = ps.Filename
